@@ -97,14 +97,25 @@ fn history<K: BufKind>(i: &Input, obs: &mut Obs) -> Result<(), Fail> {
     if i.m.len() <= K::CAP {
         let f = ref_frame(&i.m);
         let mut evs = Vec::new();
-        drive::push_all(&mut dec, &f, 0, &mut evs);
+        // in half of the cases one stray byte arrives first (the tail of whatever was cut off): it must be
+        // reported as one discarded byte and must not stand in the way of the frame
+        let stray = i.m.len() % 2 == 1;
+        let mut probe = Vec::with_capacity(f.len() + 1);
+        if stray {
+            probe.push(0xa5);
+        }
+        probe.extend_from_slice(&f);
+        drive::push_all(&mut dec, &probe, 0, &mut evs);
+        let want = if stray { vec![(9, Ev::Err(DecodeErr::DiscardedBytes(1))), (probe.len(), Ev::Msg(i.m.clone()))] } else { vec![(f.len(), Ev::Msg(i.m.clone()))] };
         ensure!(
-            evs == vec![(f.len(), Ev::Msg(i.m.clone()))],
+            evs == want,
             "object-unusable-after-history",
-            "{who}: after the call history [{}] and finalize(), pushing the frame of payload {} yields {}; expected exactly Ok(payload) at its last byte",
+            "{who}: after the call history [{}] and finalize(), pushing {}the frame of payload {} yields {}; expected {}",
             show_ops(&i.ops),
+            if stray { "one stray byte and " } else { "" },
             hex_short(&i.m, 40),
-            drive::show_pos(&evs)
+            drive::show_pos(&evs),
+            drive::show_pos(&want)
         );
         ensure!(dec.finalize().is_none(), "object-unusable-after-history", "{who}: finalize() after the final frame reports leftover");
     }
